@@ -4,6 +4,7 @@
     parse <line hex>                                   → raise | added <bl> <g> <p> | disc basic|bitlen <p>
     file <min> <prefer> <max> <roll> <text hex>        → <pack dump> # <ndiscarded> | ok <g> <p> / err nomoduli
     getp <min> <prefer> <max> <roll> <dict>            → ok <g> <p> / err nomoduli     (dict: bl:g.p,g.p;bl:… | -)
+    seq <dict> <min>,<prefer>,<max>,<roll>;…           → answers of successive get_modulus calls on ONE pack, joined by " | "
     gex <a> <b> <c>                                    → <min> <prefer> <max> handed to get_modulus
     gexold <b>                                         → <min> <prefer> <max>
     kex <a> <b> <c> <roll> <dict>  /  kexold <b> <roll> <dict>  → ok <g> <p> / err nomoduli
@@ -73,6 +74,17 @@ def step (line : String) : String :=
     | some mn, some pf, some mx, some k, some d =>
       showRes (Pack.getModulus (fun n => k % n) { pack := d, discarded := [] } mn pf mx)
     | _, _, _, _, _ => "bad-op"
+  | ["seq", d, rs] =>
+    let parseReq (t : String) : Option Request :=
+      match t.splitOn "," with
+      | [a, b, c, k] => match intOfString? a, intOfString? b, intOfString? c, k.toNat? with
+        | some a, some b, some c, some k => some (a, b, c, k)
+        | _, _, _, _ => none
+      | _ => none
+    match parseDict d, (rs.splitOn ";").mapM parseReq with
+    | some d, some reqs =>
+      " | ".intercalate ((Pack.getSession { pack := d, discarded := [] } reqs).2.map showRes)
+    | _, _ => "bad-op"
   | ["gex", a, b, c] =>
     match intOfString? a, intOfString? b, intOfString? c with
     | some a, some b, some c =>
